@@ -3,10 +3,13 @@
 P1 every get_group_id implementation returns, on every path, a non-None group that it registered
 P2 name->index and index->name group tables are built from the same ordered sequence
 P3 the group used for counting is a member of the universe the counters were built from
+P4 rendering flags control only writes to their own file (rows and totals do not depend on --counts_format)
+P5 <v>.read_group is read only while v is the current read of its loop
 """
 import ast
+import re
 
-from ..engine.program import AnalysisError, dotted, src, walk_no_nested, call_name
+from ..engine.program import AnalysisError, dotted, src, walk_no_nested, call_name, enclosing_stmt
 from ..engine import flow, symexec
 
 RG = "src/read_groups.py"
@@ -196,7 +199,91 @@ def p3(prog, ctx):
         ctx.ok("P3", "%s:%d" % (LRC, lin[0].lineno), "linear: ordered_groups[numeric id]; matrix: counter.get(group_numeric_ids[name]) over the same table")
 
 
+def p4(prog, ctx):
+    """A rendering flag controls nothing but writes to its own file: which rows/triples exist must not depend on --counts_format."""
+    n = 0
+    for m, q, f in prog.all_functions():
+        if m.rel != LRC:
+            continue
+        flagged = [i for i in walk_no_nested(f) if isinstance(i, ast.If)
+                   and any(re.match(r"^self\.output_grouped_\w+$", src(a)) for a in flow.atoms(i.test))]
+        for i in flagged:
+            flag = [src(a) for a in flow.atoms(i.test) if re.match(r"^self\.output_grouped_\w+$", src(a))][0]
+            for st in i.body + i.orelse:
+                for sub in ast.walk(st):
+                    if not isinstance(sub, ast.stmt):
+                        continue
+                    n += 1
+                    if isinstance(sub, ast.Expr) and isinstance(sub.value, ast.Call) and isinstance(sub.value.func, ast.Attribute) \
+                            and sub.value.func.attr in ("write", "close", "flush"):
+                        continue
+                    if isinstance(sub, (ast.If, ast.For, ast.Pass)):
+                        continue
+                    if isinstance(sub, ast.Assign) and all(isinstance(t, ast.Name) for t in sub.targets):
+                        names = {t.id for t in sub.targets}
+                        outside = [x for x in walk_no_nested(f) if isinstance(x, ast.Name) and x.id in names
+                                   and isinstance(x.ctx, ast.Load) and not _within(x, i)]
+                        if not outside:
+                            continue
+                    ctx.fail("P4", sub, q, "if %s: %s" % (flag, src(sub)[:80]),
+                             "%s is executed only when the rendering flag %s is set, but it is not a write to that rendering's file: "
+                             "what is counted / which rows are emitted would depend on --counts_format, so the matrix and linear tables "
+                             "(and the grouped vs ungrouped totals) can disagree" % (src(sub)[:60], flag))
+        if flagged:
+            ctx.ok("P4", "%s:%d" % (LRC, f.lineno), "%s: %d blocks controlled by a rendering flag contain only writes to their own file"
+                   % (q, len(flagged)))
+    ctx.floor("P4", "statements under a rendering flag", n, 3)
+
+
+def _within(node, anc):
+    cur = node
+    while cur is not None:
+        if cur is anc:
+            return True
+        cur = getattr(cur, "_parent", None)
+    return False
+
+
+def p5(prog, ctx):
+    """`v.read_group` / `v.read_id` is read only while v is bound to the read in hand: not a loop variable after its loop."""
+    n = 0
+    for m, q, f in prog.all_functions():
+        params = {a.arg for a in f.args.args + f.args.kwonlyargs}
+        for node in walk_no_nested(f):
+            if not (isinstance(node, ast.Attribute) and node.attr == "read_group" and isinstance(node.ctx, ast.Load)
+                    and isinstance(node.value, ast.Name)):
+                continue
+            v = node.value.id
+            if v in ("self", "args") or v in params:
+                continue
+            n += 1
+            loops = [l for l in walk_no_nested(f) if isinstance(l, (ast.For, ast.comprehension))
+                     and any(isinstance(t, ast.Name) and t.id == v for t in ast.walk(l.target))]
+            if not loops:
+                continue
+            enclosing = False
+            for l in loops:
+                if isinstance(l, ast.For) and _within(node, l) and not any(_within(node, o) for o in l.orelse):
+                    enclosing = True
+                if isinstance(l, ast.comprehension) and _within(node, l._parent):
+                    enclosing = True
+            assigned = [st for st in walk_no_nested(f) if isinstance(st, ast.Assign) and any(isinstance(t, ast.Name) and t.id == v for t in st.targets)
+                        and st.lineno < node.lineno]
+            if enclosing or assigned:
+                ctx.ok("P5", "%s:%d" % (m.rel, node.lineno), "%s: %s.read_group read while %s is the loop's current read" % (q, v, v), nontrivial=False)
+                continue
+            ctx.fail("P5", node, q, src(enclosing_stmt(node))[:100],
+                     "%s.read_group is read after the loop over `%s` has ended: it is the group of whichever read the loop saw last, not of "
+                     "the read being counted - the read is counted under a foreign group" % (v, v))
+    ctx.floor("P5", "reads of <var>.read_group", n, 3)
+
+
 def run(prog, ctx):
+    ctx.rule("P4", "statements controlled by a rendering flag (self.output_grouped_*) are writes to a file or assignments to names used "
+                   "only inside that block - row selection and totals are independent of --counts_format")
+    ctx.rule("P5", "every read of <v>.read_group with v a for-loop variable lies inside that loop (no stale loop variable)")
+    p4(prog, ctx)
+    p5(prog, ctx)
     ctx.rule("P1", "path enumeration of every get_group_id sibling (subclasses of AbstractReadGrouper handed out by "
                    "create_read_grouper): each non-raising path returns a non-None value that was added to self.read_groups on "
                    "that path or is the constructor's constant group")
